@@ -78,7 +78,7 @@ fn exact3(rep: &mut Report) {
         "X",
         &format!("{} rational unit vectors: (a, a) and (a, -a)", fr2.len()),
         fr2.len() * 2,
-        Guard::states(20).distinct(5).inconclusive(0.9),
+        Guard::states(20).distinct(5).inconclusive(0.9).need("antiparallel-judged", 3),
         |i, ctx| {
             let (a, _n) = fr2[i / 2];
             let anti = i % 2 == 1;
@@ -97,6 +97,7 @@ fn exact3(rep: &mut Report) {
                 ctx.branch("antiparallel");
                 // half turn about an axis perpendicular to a (normalisation of the axis may be irrational -> domain exit)
                 let q: Quaternion<T> = Rotation::between_vectors(ca, cb);
+                ctx.branch("antiparallel-judged");
                 same_slice(ctx, &key("between_vectors/Quaternion/antiparallel-half-turn"), &[q.s, model::vdot(v3(q.v), a), model::vdot(v3(q.v), v3(q.v))], &[T::int(0), T::int(0), T::int(1)]);
                 same_slice(ctx, &key("between_vectors/Quaternion/maps-a-to-b"), &v3(q.rotate_vector(ca)), &b);
             }
@@ -163,14 +164,16 @@ fn float3<T: Tier>(rep: &mut Report) {
     let us = alphabet::uv3(true);
     let n = us.len();
     // pairs: all (a, b) from the list, plus near-(anti)parallel partners built in f64
-    let near: [f64; 3] = [1e-9, 1e-6, 1e-3];
+    // inside the allowances (1e-9), between them (1e-6), outside both (1e-3), and just outside each (2e-7 / 5e-7 for unit
+    // vectors, 2e-4 / 5e-4 for from_arc): a wider "treat as parallel" band than the statement allows shows there
+    let near: [f64; 7] = [1e-9, 2e-7, 5e-7, 1e-6, 2e-4, 5e-4, 1e-3];
     let n_near = if T::NAME == "D" { n * near.len() * 2 } else { 0 };
     let total = n * n + n_near;
     let lens: [f64; 4] = [1e-3, 0.2, 3.0, 1e3];
     rep.cases(
         "float3",
         T::NAME,
-        &format!("all {n}x{n} pairs of rational unit vectors{}; from_arc with lengths {:?} and fallback in {{None, perpendicular}}", if n_near > 0 { " + near-parallel/antiparallel partners at 1e-9, 1e-6, 1e-3 rad" } else { "" }, lens),
+        &format!("all {n}x{n} pairs of rational unit vectors{}; from_arc with every pair of lengths from {:?} and fallback in {{None, perpendicular}}", if n_near > 0 { " + near-parallel/antiparallel partners at 1e-9, 2e-7, 5e-7, 1e-6, 2e-4, 5e-4, 1e-3 rad" } else { "" }, lens),
         total,
         Guard::states(100).distinct(100).need("generic", 50),
         |i, ctx| {
@@ -228,8 +231,7 @@ fn float3<T: Tier>(rep: &mut Report) {
             // from_arc on arbitrary lengths
             let helper = if af[0].abs() < 0.9 { [1.0, 0.0, 0.0] } else { [0.0, 1.0, 0.0] };
             let perp = unit3(cross_f(af, helper));
-            for (li, l1) in lens.iter().enumerate() {
-                let l2 = lens[(li + 1) % lens.len()];
+            for (l1, l2) in lens.iter().flat_map(|x| lens.iter().map(move |y| (x, *y))) {
                 let sc = |v: [T; 3], l: f64| -> Vector3<T> { mk_v3(std::array::from_fn(|j| v[j] * num_traits::cast::<f64, T>(l).unwrap())) };
                 let (src, dst) = (sc(a, *l1), sc(b, l2));
                 for fb in [None, Some(perp)] {
@@ -250,6 +252,59 @@ fn float3<T: Tier>(rep: &mut Report) {
                             ctx.check(norm_f(cross_f(qv, p)) <= 1e-6 && q.s.f().abs() <= 1e-6, &key("from_arc/fallback-axis"), || format!("q = {:?}, fallback axis {:?}", q, p));
                         }
                     }
+                }
+            }
+        },
+    );
+}
+
+/// exactly opposite vectors (b = -a bit for bit, lengths powers of two): a half turn about an axis perpendicular to a,
+/// the fallback axis when one is given
+fn opposite3<T: Tier>(rep: &mut Report) {
+    let us = alphabet::uv3(true);
+    let lens: [(i32, i32); 6] = [(0, 0), (-9, -9), (9, 9), (-9, 9), (3, -2), (-1, 0)];
+    rep.cases(
+        "opposite3",
+        T::NAME,
+        &format!("{} rational unit vectors a (rounded), b = -a exactly; between_vectors (Quaternion, Basis3) and from_arc(2^i a, -2^j a, None | perpendicular axis) for (i, j) in {:?}", us.len(), lens),
+        us.len(),
+        Guard::states(20).distinct(20),
+        |i, ctx| {
+            let (x, d) = us[i];
+            let a: [T; 3] = std::array::from_fn(|j| T::q(x[j], d));
+            let b: [T; 3] = a.map(|c| -c);
+            let (af, bf): ([f64; 3], [f64; 3]) = (a.map(|c| c.f()), b.map(|c| c.f()));
+            ctx.describe(|| format!("a={:?} b=-a", a));
+            ctx.out(&i);
+            let tol = K_TOL * T::U;
+            let dist = |x: [T; 3], y: [f64; 3]| -> f64 { (0..3).map(|j| (x[j].f() - y[j]).powi(2)).sum::<f64>().sqrt() };
+            let (ca, cb) = (mk_v3(a), mk_v3(b));
+            let q: Quaternion<T> = Rotation::between_vectors(ca, cb);
+            let qv = [q.v.x.f(), q.v.y.f(), q.v.z.f()];
+            ctx.check((q.magnitude2().f() - 1.0).abs() <= tol, &key("between_vectors/Quaternion/opposite/unit"), || format!("q = {:?}", q));
+            ctx.check(q.s.f().abs() <= tol, &key("between_vectors/Quaternion/opposite/half-turn"), || format!("q = {:?}: scalar part is not 0", q));
+            ctx.check(dot_f(qv, af).abs() <= tol, &key("between_vectors/Quaternion/opposite/axis-perpendicular"), || format!("q = {:?}: axis not perpendicular to a", q));
+            ctx.check(dist(v3(q.rotate_vector(ca)), bf) <= tol, &key("between_vectors/Quaternion/opposite/maps-a-to-b"), || format!("r(a) = {:?}", q.rotate_vector(ca)));
+            let r: Basis3<T> = Rotation::between_vectors(ca, cb);
+            ctx.check(dist(v3(r.rotate_vector(ca)), bf) <= tol, &key("between_vectors/Basis3/opposite/maps-a-to-b"), || format!("r(a) = {:?}", r.rotate_vector(ca)));
+            let helper = if af[0].abs() < 0.9 { [1.0, 0.0, 0.0] } else { [0.0, 1.0, 0.0] };
+            let perp = unit3(cross_f(af, helper));
+            let ua = unit3(af);
+            for (e1, e2) in lens {
+                let sc = |v: [T; 3], e: i32| -> Vector3<T> { mk_v3(v.map(|c| c * num_traits::cast::<f64, T>(2f64.powi(e)).unwrap())) };
+                let (src, dst) = (sc(a, e1), sc(b, e2));
+                for fb in [None, Some(perp)] {
+                    let fbt = fb.map(|p| mk_v3(p.map(|c| num_traits::cast::<f64, T>(c).unwrap())));
+                    let q = Quaternion::from_arc(src, dst, fbt);
+                    let qv = [q.v.x.f(), q.v.y.f(), q.v.z.f()];
+                    let what = format!("from_arc(2^{e1} a, -2^{e2} a, {})", if fb.is_some() { "Some(axis)" } else { "None" });
+                    ctx.check((q.magnitude2().f() - 1.0).abs() <= tol, &key("from_arc/opposite/unit"), || format!("{what} = {:?}", q));
+                    ctx.check(q.s.f().abs() <= tol, &key("from_arc/opposite/half-turn"), || format!("{what} = {:?}: scalar part is not 0", q));
+                    ctx.check(dist(v3(q.rotate_vector(mk_v3(ua.map(|c| num_traits::cast::<f64, T>(c).unwrap())))), ua.map(|c| -c)) <= tol * 2.0, &key("from_arc/opposite/maps-src-to-dst"), || format!("{what} = {:?}", q));
+                    match fb {
+                        Some(p) => ctx.check(norm_f(cross_f(qv, p)) <= tol * 2.0, &key("from_arc/opposite/fallback-axis"), || format!("{what} = {:?}, fallback axis {:?}", q, p)),
+                        None => ctx.check(dot_f(qv, ua).abs() <= tol * 2.0, &key("from_arc/opposite/axis-perpendicular"), || format!("{what} = {:?}: axis not perpendicular to src", q)),
+                    };
                 }
             }
         },
@@ -303,6 +358,8 @@ fn main() {
     exact2(&mut rep);
     float3::<f64>(&mut rep);
     float3::<f32>(&mut rep);
+    opposite3::<f64>(&mut rep);
+    opposite3::<f32>(&mut rep);
     float2::<f64>(&mut rep);
     float2::<f32>(&mut rep);
     std::process::exit(rep.finish());
